@@ -2,6 +2,7 @@
 //! C07 (field arithmetic against num-bigint).
 use crate::oracle::*;
 use crate::s_fp::{fp_of, lattice, le24, repr};
+use crate::s_sharks::share_bytes;
 use crate::util::*;
 use ff::{Field, PrimeField};
 use num_bigint::BigUint;
@@ -124,6 +125,28 @@ pub fn c07(tier: &str, seed: u64) {
         }
       }
     }
+    // the same decision through the public decoding surface (Share::try_from): as the x coordinate
+    // and as a y coordinate; an accepted share re-encodes to the bytes it was read from
+    for as_y in [false, true] {
+      let mut sb = Vec::new();
+      if as_y {
+        sb.extend(le24(1, 0));
+      }
+      sb.extend(b);
+      let r = Share::try_from(&sb[..]);
+      match r {
+        Ok(sh) => {
+          if v >= p || share_bytes(&sh) != sb {
+            fail("encoding", &[("bytes", hex(&b)), ("why", format!("Share::try_from accepted a non-canonical {} or re-encoded it differently", if as_y { "y" } else { "x" }))]);
+          }
+        }
+        Err(_) => {
+          if v < p {
+            fail("encoding", &[("bytes", hex(&b)), ("why", format!("Share::try_from rejected a canonical {} coordinate", if as_y { "y" } else { "x" }))]);
+          }
+        }
+      }
+    }
     case(true);
   }
   // published constants
@@ -233,7 +256,7 @@ pub fn c06(tier: &str, seed: u64) {
   let mut g = Sm::new(seed, "oracle.C06");
   let p = modulus();
   let lat: Vec<[u8; 24]> = lattice().into_iter().filter(|b| fp_of(b).is_some()).collect();
-  let n = if quick(tier) { 120 } else { 2500 };
+  let n = if quick(tier) { 120 } else { 1500 };
   for case_i in 0..n {
     let t: u32 = match case_i % 6 {
       0 if case_i % 30 == 0 => *g.pick(&[255u32, 256, 257, 65535, 65536, 65537]),
@@ -241,10 +264,11 @@ pub fn c06(tier: &str, seed: u64) {
       1 => 2,
       2 => g.range(3, 12) as u32,
       3 => g.range(13, 64) as u32,
-      4 if !quick(tier) || case_i % 24 == 4 => g.range(100, 600) as u32,
+      4 if case_i % 24 == 4 => g.range(100, 600) as u32,
       _ => g.range(1, 30) as u32,
     };
-    let k = if t > 1000 { 1 } else { g.below(if quick(tier) { 5 } else { 17 }) as usize };
+    // cost of the independent interpolation is O(k t^2): keep k small for large thresholds
+    let k = if t > 1000 { 1 } else if t >= 100 { g.range(1, 2) as usize } else if t >= 30 { g.below(5) as usize } else { g.below(if quick(tier) { 5 } else { 17 }) as usize };
     let elems: Vec<BigUint> = (0..k).map(|_| rand_big(&mut g, &lat)).collect();
     let mut secret = Vec::new();
     for e in &elems {
@@ -280,14 +304,37 @@ pub fn c06(tier: &str, seed: u64) {
     // shares from both sources
     let mut shares: Vec<Share> = Vec::new();
     let nnext = if t > 1000 { 3 } else { g.range(1, (t as u64 + 3).min(40)) as usize };
+    // the dealer is an Iterator: through `next` and through the std adaptors (nth, skip, step_by)
+    // the n-th item consumed is the share at x = n; a fresh dealer never hands out x = 0
+    let mut pos = 0u64;
     for i in 0..nnext {
-      let s = ev.next().unwrap();
-      if big(&s.x) != BigUint::from(i as u64 + 1) % &p {
-        fail("iterator_point", &[("n", (i + 1).to_string()), ("x", big(&s.x).to_str_radix(16))]);
+      let (how, s) = match if i < 2 || g.chance(1, 3) { g.below(4) } else { 0 } {
+        1 => {
+          let n = g.below(3);
+          pos += n + 1;
+          (format!("nth({})", n), ev.nth(n as usize).unwrap())
+        }
+        2 => {
+          let n = g.below(3);
+          pos += n + 1;
+          (format!("skip({}).next()", n), ev.by_ref().skip(n as usize).next().unwrap())
+        }
+        3 => {
+          let st = g.range(1, 3);
+          pos += 1;
+          (format!("step_by({}).next()", st), ev.by_ref().step_by(st as usize).next().unwrap())
+        }
+        _ => {
+          pos += 1;
+          ("next()".to_string(), ev.next().unwrap())
+        }
+      };
+      if big(&s.x) != BigUint::from(pos) % &p {
+        fail("iterator_point", &[("call", how), ("items_consumed", pos.to_string()), ("x", big(&s.x).to_str_radix(16)), ("t", t.to_string()), ("secret", hex(&secret))]);
       }
       shares.push(s);
     }
-    let mut grng = RecRng { inner: Sm(g.next()), words: vec![], zero_next: if g.chance(1, 4) { 3 } else { 0 } };
+    let mut grng = RecRng { inner: Sm(g.next()), words: vec![], zero_next: if g.chance(1, 3) { 3 * g.range(1, 8) as usize } else { 0 } };
     let ngen = if t > 1000 { 1 } else { (t as usize + 2).saturating_sub(nnext).max(2) };
     for _ in 0..ngen {
       shares.push(ev.gen(&mut grng));
